@@ -133,7 +133,7 @@ Silent ==
   /\ owed = Nil
   /\ \/ S!InitRoundEnd \/ S!InitWake \/ S!PollFinish
      \/ \E n \in NameSet : (S!PollStep(n) /\ out'.ev = "expire")
-     \/ \E k \in CallerSet : ((S!LookupEnter(k) /\ out'.ev = "join") \/ S!LookupGiveUp(k))
+     \/ \E k \in CallerSet : ((S!LookupEnter(k) /\ out'.ev = "join") \/ S!LookupGiveUp(k) \/ S!CtxExpire(k))
      \/ (cfg.fileClient /\ \E n \in NameSet : (S!InitReq(n) \/ S!InitResp(n, FALSE)))    \* a file-backed client is not scripted
   /\ Owes /\ UNCHANGED l
 
